@@ -346,7 +346,7 @@ class ReadTarFS(FS):
                 member.type = tarfile.DIRTYPE
 
             raw_info["basic"] = {
-                "name": basename(self._decode(member.name)),
+                "name": basename(_path),
                 "is_dir": member.isdir(),
             }
 
